@@ -378,6 +378,8 @@ H("endpoint_dispose_incoming_native", ["C09", "C08"], "replay-only", "endpoint::
   [("refuse", "bool")], 4, [], ["Endpoint::ignore", "Endpoint::refuse", "Endpoint::clean_up_incoming"], "native replay body of E2 queries e2_clean_up_incoming / e2_endpoint_refuse_cleans_up / e2_endpoint_ignore_cleans_up")
 H("streams_received_accounting_native", ["C06"], "replay-only", "connection::streams::received_accounting_native",
   [("over", "bool")], 4, [], ["StreamsState::received", "Recv::ingest"], "native replay body of E2 query e2_streams_received_accounting")
+H("streams_received_reset_native", ["C06", "C11"], "replay-only", "connection::streams::received_reset_native",
+  [("over", "bool")], 4, [], ["StreamsState::received_reset", "Recv::reset"], "native replay body of E2 query e2_streams_received_reset")
 H("conn_peer_params_cid_auth_native", ["C14", "C04"], "replay-only", "connection::peer_params_cid_auth_native",
   [("server", "bool"), ("which", "u8")], 4, [], ["Connection::handle_peer_params"], "native replay body of E2 query e2_peer_params_cid_auth")
 
